@@ -281,6 +281,12 @@ func (enc *Encoder) Literal(size int64, sync *ContinuationRequest) io.WriteClose
 		}
 	}
 
+	if enc.err != nil {
+		// Nothing has been written for this literal, e.g. because the
+		// server has refused a previous one: don't let its data through
+		return errorWriter{enc.err}
+	}
+
 	enc.literal = true
 	return &literalWriter{
 		enc: enc,
